@@ -201,6 +201,9 @@ def old_format_lines(rng, n):
         t = list(pool)[k % len(pool)]
         vals = [rng.choice(pool[t]) for _ in range(rng.choice([0, 1, 1, 2, 3, 5, 12]))]
         lines.append('pv_old %s %s %s' % (t, lst(vals), f64(rng.choice([0.25, 1.5, 0.0, 1e-3]))))
+        # the current layout under the version labels that use it: 1.1.1 (the first), later 1.1.x, 1.2.0
+        vals1 = [rng.choice(pool[t]) for _ in range(rng.choice([1, 1, 2, 3, 5]))]
+        lines.append('pv_relabel %s %s' % (rng.choice(['1 1 1', '1 1 1', '1 1 2', '1 1 9', '1 2 0']), lst(vals1)))
     return lines
 
 def nontrivial(case, tags):
